@@ -52,12 +52,25 @@ def register(prop):
          "per-member pattern (join update* leave)*, replay of the log == set captured inside each callback (under the node lock) == Members() at every scheduler step "
          "incl. meta, callbacks never overlap; non-trivial as in C05/C04; " + FP)
 
+    prop("C02", [dict(scn="C02", quick=20000, thorough=1500000, wall_quick=100, wall_thorough=1500)],
+         "bench mode: one real node accused by puppets: sequences of 1-10 suspect/dead/alive-about-self/push-pull entries (all four states) at incarnation own-1, own, own+1, "
+         "own+k, 2^31, 2^32-3, same/different meta, valid/other/short/invalid version vectors, own/foreign address, via direct call, UDP packet, piggybacked on a ping, "
+         "interleaved with UpdateNode and waits; after every step: lists itself alive, LocalNode sane, incarnation never decreases; must-refute class => incarnation "
+         "strictly above the accusation, alive with exactly that incarnation queued, health +1 (clamped); below-own accusations change nothing; non-trivial = >=1 "
+         "refutation; distinct = distinct accusation sequences. Restarts with a lower incarnation than peers remember are exercised by C05's restart ops.",
+         assumptions=["alive-about-self from a foreign address, with a malformed/short version vector is in the may-ignore class (only the unconditional half is checked)",
+                      "accusations at the largest representable incarnation are excluded by the statement"])
+
 NOT_CLAIMED = {}
 
 SIM_NOTE = ("trusted base: Go runtime + testing/synctest fake clock, the harness (scheduler, SimNet, oracles) under /verif/sim; "
             "assumes the guarded yield sites are the relevant preemption points; seeded search, not proof")
 
 META = {
+ "C02": dict(
+    level_text="Seeded accusation sequences against one real node with an exact per-step oracle (strictly outranking refutation, queued alive carries the new incarnation, health accounting), through direct calls and the packet pipeline; cluster restarts with reset incarnation are covered by C05's convergence oracle.",
+    design_ref="DESIGN.md §3 C02", level_note=SIM_NOTE,
+    technique="deterministic simulation (bench mode): seeded accusation sequences vs refutation reference; restart histories in cluster mode"),
  "C04": dict(
     level_text="Absence-of-event invariant (no suspicion, no accusation queued, no leave event, health 0) evaluated at every scheduler step of seeded healthy-cluster runs in which the delivery latency of every packet is drawn inside the stated bound; exploration over join orders, latency assignments and API interleavings.",
     design_ref="DESIGN.md §3 C04", level_note=SIM_NOTE,
